@@ -341,9 +341,36 @@ def rule_r5(ctx) -> List[R.Inst]:
         if not writes:
             insts.append(R.ok("C08.R5", key, cv.file, cv.fn.node.lineno, idiom="columns never rewritten"))
             continue
+        # enclosing conditions of every statement
+        guards = {}
+        def _walk(stmts, conds):
+            for st in stmts:
+                guards[id(st)] = conds
+                if isinstance(st, ast.If):
+                    _walk(st.body, conds + [(st.test, True)])
+                    _walk(st.orelse, conds + [(st.test, False)])
+                elif isinstance(st, (ast.For, ast.While, ast.With, ast.Try)):
+                    for blk in ("body", "orelse", "finalbody"):
+                        _walk(getattr(st, blk, []) or [], conds)
+        _walk(cv.fn.node.body, [])
         for w in writes:
             good = isinstance(w, ast.AugAssign) and isinstance(w.op, ast.Add) and isinstance(w.value, ast.Name) \
                 and w.value.id in params
+            # the shift may be skipped only when it is 0 (`if shift:` / `if shift != 0:`): any other test on the shift parameter
+            # drops part of its domain (a negative shift is a shift)
+            bad_guard = None
+            if good:
+                for test, pol in guards.get(id(w), []):
+                    if any(isinstance(x, ast.Name) and x.id == w.value.id for x in ast.walk(test)):
+                        t = unparse(test).replace(" ", "")
+                        if pol and t in (w.value.id, f"{w.value.id}!=0", f"0!={w.value.id}"):
+                            continue
+                        bad_guard = test
+            if bad_guard is not None:
+                insts.append(R.viol("C08.R5", key, cv.file, w.lineno,
+                                    f"the shift is applied only when '{unparse(bad_guard)}': for the other values of '{w.value.id}' the "
+                                    f"requested shift is silently ignored", construct=f"{key}: shift guarded by {unparse(bad_guard)}"))
+                continue
             late_casts = [c for c, tgt, st in cv.casts if tgt is not None and st.lineno > w.lineno and
                           any(f in ("column",) for f in (M_cols(ctx, cv, tgt)))]
             if good and late_casts and isinstance(w.target, ast.Attribute) and "stack()" in unparse(w.target):
